@@ -297,6 +297,31 @@ def ungroup_always_flattens(ctx: Ctx, rep: Report, rid: str = "R11.7") -> None:
         rep.violation("Acl.shading", "flattening", "the report no longer flattens the groups before comparing entries", where(sh))
 
 
+def report_in_position_order(ctx: Ctx, rep: Report, rid: str = "R11.8") -> None:
+    """'Earlier' means earlier in the ACL: the list the report loops over is the item list filtered, in item order - not
+    sorted by sequence number or anything else (text need not be in ascending number order; unnumbered lines have 0)."""
+    from .common import order_of
+
+    rep.rule(rid)
+    f = ctx.func("Acl.shading")
+    cfg = ctx.cfg(f)
+    loops = [n for n in cfg.live if n.kind == "for"]
+    rep.instance()
+    rep.require(bool(loops), "Acl.shading lost its loops")
+    it = loops[0].ast.iter
+    base = it.args[0] if isinstance(it, ast.Call) and isinstance(it.func, ast.Name) and it.func.id == "enumerate" and it.args else it
+    if isinstance(base, ast.Call) and "combinations" in src(base.func) and base.args:
+        base = base.args[0]
+    state, why = order_of(ctx, f, base)
+    reorder = [x for x in own_nodes(f.node) if isinstance(x, ast.Call) and isinstance(x.func, ast.Attribute) and x.func.attr in ("sort", "reverse") and isinstance(base, ast.Name) and src(x.func.value) == base.id]
+    if reorder:
+        rep.violation("Acl.shading", snippet(reorder[0], 60), "the entries are re-ordered before they are compared: 'an earlier entry' is then not an entry that stands above in the ACL, and the report lists entries under the wrong one (or not at all)", where(f, reorder[0]), inp="'20 permit ...' written above '10 permit ...'")
+    elif state.startswith("ordered:"):
+        rep.ok(f"Acl.shading: {snippet(base, 30)}", f"item order ({why})", where=where(f, base))
+    else:
+        rep.violation("Acl.shading", snippet(base, 60), f"the list the report loops over is not in item order: {state} ({why})", where(f, base), inp="'20 permit ...' written above '10 permit ...'")
+
+
 def run(ctx: Ctx, rep: Report, tier: str) -> None:
     # R11.0: every clause C03 decides about the pairwise test (conjunction, skip independence/monotonicity = the
     # 'for every combination of skip options' clause, sibling agreement, inclusion direction, ...) is a premise here
@@ -314,3 +339,4 @@ def run(ctx: Ctx, rep: Report, tier: str) -> None:
     r11_5(ctx, rep)
     skip_forwarding(ctx, rep)
     ungroup_always_flattens(ctx, rep)
+    report_in_position_order(ctx, rep)
